@@ -71,7 +71,13 @@ d1::task* vp_steal_task(arena_slot* victim, arena* a, long iso, unsigned long vi
 
 // ---- affinity mailbox
 void vp_proxy_init(task_proxy* p, d1::task* t, long iso, int shared_with_pool, int already_taken, mail_outbox* box) {
-  new ((void*)p) task_proxy();               // real object: delete_object runs its (virtual) destructor
+  // p is zero-initialised typed storage of the harness. No constructor / memset on it (a byte-wise fill makes cbmc lose
+  // the per-field view of the object); the vtable pointer is copied from a real task_proxy because
+  // small_object_allocator::delete_object runs the virtual destructor.
+  task_proxy proto;                              // automatic object: no guarded static initialisation
+  *reinterpret_cast<void**>(p) = *reinterpret_cast<void**>(&proto);
+  p->m_version_and_traits = 0;
+  p->next_in_mailbox.store(nullptr, std::memory_order_relaxed);
   task_accessor::set_proxy_trait(*p);
   task_accessor::isolation(*p) = iso;       // task_dispatcher copies the task's tag to its proxy when it mails it
   p->outbox = box; p->slot = 1;
